@@ -6,14 +6,20 @@
 
 #[cfg(grevm_verif)]
 use grevm_verif_rt::{
-    sync::OnceLock,
+    sync::{
+        OnceLock,
+        atomic::{Ordering, fence},
+    },
     thread::{self, Thread},
 };
 #[cfg(grevm_verif)]
 use std::time::Duration;
 #[cfg(not(grevm_verif))]
 use std::{
-    sync::OnceLock,
+    sync::{
+        OnceLock,
+        atomic::{Ordering, fence},
+    },
     thread::{self, Thread},
     time::Duration,
 };
@@ -37,9 +43,17 @@ impl WaitSlot {
         self.thread
             .set(thread::current())
             .expect("scheduler wait thread registered more than once");
+        // Pairs with the fence in `notify`. A producer publishes its condition and then looks up
+        // the registration; the consumer registers and then evaluates its predicate. Without a
+        // sequentially consistent fence on both sides each may miss the other's store (store
+        // buffering), and the consumer would park with no wake-up on the way.
+        fence(Ordering::SeqCst);
     }
 
     pub(super) fn notify(&self) {
+        // See `register_current_thread`: the caller's condition store must be ordered before the
+        // registration lookup.
+        fence(Ordering::SeqCst);
         if let Some(thread) = self.thread.get() {
             thread.unpark();
         }
